@@ -168,7 +168,7 @@ def plan(prop, tier):
         P += S("asan", "hist", n=1200 if q else 25000, shards=4 if q else 8, profile="ub", timeout=1800)
         P += S("asan", "chains", shards=2 if q else 6, stride=30 if q else 3, timeout=1800)
         P += S("asan", "sets", n=200 if q else 3000, shards=1 if q else 2)
-        P += S("asan", "fault", n=40 if q else 600, shards=1 if q else 2, leaks_ok=True)
+        P += S("asan", "fault", n=40 if q else 300, shards=1 if q else 4, leaks_ok=True, timeout=3000)
         P += S("release", "zst", depth=4) + S("debug", "zst", depth=3)
         P += S("miri", "hist", n=5 if q else 120, shards=8 if q else 14, profile="ub", timeout=3000, leaks_ok=False)
         P += S("miri", "sentinels", timeout=3000)
